@@ -219,6 +219,21 @@ impl PropCheck for C20 {
     }
 }
 
+fn entity_names() -> &'static Vec<String> {
+    static T: std::sync::OnceLock<Vec<String>> = std::sync::OnceLock::new();
+    T.get_or_init(|| {
+        let path = format!("{}/data/html5_entities.json", crate::jsworker::verif_root());
+        let mut v: Vec<String> = vec![];
+        if let Ok(text) = std::fs::read_to_string(path) {
+            if let Ok(Value::Object(o)) = serde_json::from_str::<Value>(&text) {
+                v = o.keys().cloned().collect();
+            }
+        }
+        v.sort();
+        v
+    })
+}
+
 fn first_difference(a: &str, b: &str) -> String {
     let ab = a.as_bytes();
     let bb = b.as_bytes();
@@ -267,7 +282,25 @@ fn artefact_class(k: &str) -> String {
 
 pub fn eval_case(tier: Tier, c: &Case) -> Result<Outcome, String> {
     let mut out = Outcome::default();
-    let sources = print_group(&c.group, c.style);
+    let mut sources = print_group(&c.group, c.style);
+    // character references in unusual spellings (wrong letter case, missing semicolon, unknown names): whatever they
+    // decode to must not depend on the process
+    {
+        let mut rng = crate::util::Rng::new(c.order_seed ^ 0xE7);
+        let names = entity_names();
+        let mut tail = String::from("<v a=\"");
+        for k in 0..8 {
+            if names.is_empty() {
+                break;
+            }
+            let n = &names[rng.below(names.len() as u64) as usize];
+            let flipped: String = n.chars().enumerate().map(|(i, ch)| if (rng.below(3) == 0 || (k % 2 == 0 && i == 0)) && ch.is_ascii_alphabetic() { if ch.is_ascii_uppercase() { ch.to_ascii_lowercase() } else { ch.to_ascii_uppercase() } } else { ch }).collect();
+            tail.push('&');
+            tail.push_str(&flipped);
+        }
+        tail.push_str("\">&ALPHA;&EACUTE;&dAGGER;&notanentity;&#xZZ;&#;&amp</v>");
+        sources[0].1.push_str(&tail);
+    }
     let scripts: Vec<(String, String)> = c.group.scripts.iter().map(|s| (s.path.clone(), s.js.clone())).collect();
     let req = |files: &[(String, String)], scripts: &[(String, String)], split: Option<usize>| -> Value {
         let mut o = json!({"files": files.iter().map(|(p, s)| json!([p, s])).collect::<Vec<_>>(), "scripts": scripts.iter().map(|(p, s)| json!([p, s])).collect::<Vec<_>>(), "dev": c.dev});
